@@ -175,6 +175,7 @@ type scripted struct {
 	// read have been delivered: another complete library call made while this one is in progress
 	reenter   func()
 	reenterAt int
+	failed    bool // an error or EOF has been reported to the caller
 }
 
 var errInjected = fmt.Errorf("injected read failure")
@@ -204,9 +205,11 @@ func (s *scripted) Read(buf []byte) (int, error) {
 		f()
 	}
 	if r.err {
+		s.failed = true
 		return d, errInjected
 	}
 	if d < k {
+		s.failed = true
 		return d, io.EOF
 	}
 	return d, nil
